@@ -676,7 +676,8 @@ impl BoundedVariantRange {
             },
         ) {
             Variance::Variant(range) => range,
-            _ => unreachable!(),
+            // The bounds saturated and converged.
+            _ => BoundedVariantRange::Lower(NonZeroUsize::MAX).into(),
         }
     }
 
